@@ -479,6 +479,31 @@ def run(repo='/repo', tier='quick'):
             before = any(w.get('op') == '+=' and P.K(w['r']) == n3 and ((b2 in d2[b] and b2 != b) or (b2 == b and i2 < i)) for b2, i2, w in P.field_writes(f, fld))
             res.check(before, 'C07.m', '%s:counts-%s-before-hand-over' % (f.name, n3), '%s += %s precedes the hand-over' % (fld, n3),
                       '%s hands %s body bytes to %s before they are added to %s (or never adds them): while they are being decompressed the bomb test divides by a count that does not include them - 0 for the first piece of a body, so a request whose first piece inflates past the bomb limit is refused whatever its ratio, and the same body passes in smaller pieces' % (f.name, n3, ex.name, fld), c['loc'])
+    # ---- C07.n decompressed output goes to the next layer when there is one
+    res.rule('C07.n', 'layers are chained at every hand-over: wherever the decompress routine hands its output buffer to the data callback, it does so on the `no next layer` arm of a test of super.next (the sibling arm feeds the next decompressor); pass-through of the undecoded input is not a hand-over of output')
+    f = db.get('htp_gzip_decompressor_decompress')
+    nh = 0
+    for b, i, st in f.stmts():
+        for c in nodes(st, lambda y: y.get('k') == 'call' and y.get('callee') is None and P.member_field(y.get('fnexpr')) == 'callback'):
+            a0 = strip(c['args'][0]) if c.get('args') else None
+            v = strip(a0['e']) if a0 is not None and a0.get('k') == 'un' and a0.get('op') == '&' else None
+            if v is None or v.get('k') != 'var':
+                continue
+            # what does this record carry?  the output buffer or the caller's input
+            srcs = {P.K(w['r']) for b2, i2, s2 in f.stmts() for w in nodes(s2, lambda y: y.get('k') == 'assign' and y.get('op') == '=')
+                    if (strip(w['l']) or {}).get('k') == 'member' and strip(w['l']).get('field') == 'data' and (strip(strip(w['l'])['base']) or {}).get('did') == v.get('did')}
+            if not any(x.endswith('->buffer') for x in srcs):
+                continue
+            nh += 1
+            # the block is an arm of `super.next != NULL [&& zlib_initialized]`: one of its entering edges leaves a test of super.next,
+            # directly or through the second operand of the &&
+            def tests(bb, what):
+                cc = f.cond_of(bb)
+                return bool(cc) and what in P.K(cc[0])
+            nonext = any(tests(p_, 'super.next') or (tests(p_, 'zlib_initialized') and any(tests(q_, 'super.next') for q_ in f.preds.get(p_, []))) for p_ in f.preds.get(b, []))
+            res.check(nonext, 'C07.n', '%s:output-hand-over@%s' % (f.name, v['name'] + '#' + str(nh)), 'on the `no next layer` arm',
+                      'the output buffer is handed to the data callback without a test for a next layer: with two content codings the second decompressor never sees these bytes and they are delivered still compressed', c['loc'])
+    res.floor('C07.n', 'hand-overs of the output buffer to the callback', nh, 3)
     return res
 
 
